@@ -115,4 +115,14 @@ def lookup : List Name → Name → Option Nat
   | [], _ => none
   | x :: r, nm => if x = nm then some 0 else (lookup r nm).map (· + 1)
 
+/-- ncmpio_Bernstein_hash (the HASH_FUNC of this build), transcribed on 32-bit unsigned words:
+    `unsigned int hash = len; for each char: hash = hash + (hash<<6) + (unsigned int)str[i];`
+    (char is signed on this platform: bytes ≥ 0x80 are sign-extended);
+    `return (int)((hash ^ (hash>>10) ^ (hash>>20)) & (hsize-1));` -/
+def bernstein (size : Nat) (nm : Name) : Nat :=
+  let hash : UInt32 := nm.foldl
+    (fun hsh c => hsh + (hsh <<< 6) + (if c ≥ 128 then UInt32.ofNat (c + 0xFFFFFF00) else UInt32.ofNat c))
+    (UInt32.ofNat nm.length)
+  ((hash ^^^ (hash >>> 10) ^^^ (hash >>> 20)) &&& (UInt32.ofNat size - 1)).toNat
+
 end PnVerif.Meta
